@@ -4,6 +4,7 @@ Require Import ExtrOcamlBasic.
 Extraction Language OCaml.
 Definition ev_step1 := Conc.step1 Event.step.
 Definition ev_init := Event.init.
+Definition ev_pols := (Event.pol_model, Event.pol_take_all, Event.pol_one_each).
 Definition ev_kinds := (Event.EBitSet, Event.ECounting).
 Definition ev_modes := (Event.WTry, Event.WTimed, Event.WBlock).
 Definition ev_words := Event.words.
@@ -16,5 +17,5 @@ Definition ev_asleep := Event.asleep_b.
 Definition ev_lost_wakeup := Event.lost_wakeup_b.
 Definition ev_bad_window := Event.bad_window_b.
 Definition ev_undelivered := Event.undelivered_b.
-Extraction "../ocaml/c05/model.ml" ev_step1 ev_init ev_kinds ev_modes ev_words ev_obs ev_ghost ev_pend ev_local
+Extraction "../ocaml/c05/model.ml" ev_step1 ev_init ev_pols ev_kinds ev_modes ev_words ev_obs ev_ghost ev_pend ev_local
   ev_asleep ev_lost_wakeup ev_bad_window ev_undelivered N.of_nat N.to_nat.
